@@ -200,7 +200,7 @@ def install_walker_env(ctx, eng, nsources=1):
             s3 = s2.clone()
             s3.trace.append(Event("walk-entry", [which, pe], "err"))
             out.append((s3, AggV("Option", 1, [AggV("Result", 1, [OpaqueV("walkdir::Error")], "Err")], "Some"), []))
-            ent = OpaqueV("walkdir::DirEntry", None, {"expr": pe, "which": which})
+            ent = OpaqueV("walkdir::DirEntry", None, {"expr": pe, "which": which, "follow": it.attrs.get("follow")})
             s2.trace.append(Event("walk-entry", [which, pe], "ok"))
             if pred_fn is None:
                 out.append((s2, AggV("Option", 1, [ok(ent)], "Some"), []))
@@ -221,6 +221,27 @@ def install_walker_env(ctx, eng, nsources=1):
                 out.append((s4, AggV("Option", 1, [ok(ent)], "Some"), [keep]))
         return ("states", out)
     S(r"^<FilterEntry<.*> as Iterator>::next$", s_walk_next)
+    # what the walk itself reports about an entry: the link's target when the walk follows links, else the entry
+    def s_de_ftype(eng, st, callee, args, dty):
+        ent = deref_ref(eng, st, args[0])
+        tie(st, ent.attrs["expr"])
+        return Outcome(OpaqueV("std::fs::FileType", None, {"of": ent.attrs["expr"], "walk_follow": ent.attrs.get("follow") or BoolV(False)}))
+    S(r"^walkdir::DirEntry::file_type$", s_de_ftype)
+
+    def s_ft_is(q):
+        def h(eng, st, callee, args, dty):
+            ft = deref_ref(eng, st, args[0])
+            of, fol = ft.attrs.get("of"), ft.attrs.get("walk_follow")
+            if fol is None:
+                return Outcome(BoolV(wfact("lstat_" + q, of)))
+            if q == "is_symlink":
+                return Outcome(BoolV(z3.And(z3.Not(fol.t), wfact("lstat_is_symlink", of))))
+            return Outcome(BoolV(z3.If(fol.t, wfact(q, of), wfact("lstat_" + q, of))))
+        return h
+    for q in ("is_dir", "is_file", "is_symlink"):
+        front(r"^(std::fs::)?FileType::%s$" % q, s_ft_is(q))
+    S(r"^walkdir::DirEntry::path_is_symlink$", lambda e, st, c, a, d: Outcome(BoolV(wfact("lstat_is_symlink", deref_ref(e, st, a[0]).attrs["expr"]))))
+    S(r"^walkdir::DirEntry::depth$", lambda e, st, c, a, d: Outcome(IntV(0 if deref_ref(e, st, a[0]).attrs.get("which") == "root" else 1, "usize")))
     S(r"^walkdir::DirEntry::into_path$", lambda e, st, c, a, d: Outcome(P(a[0].attrs["expr"])))
     S(r"^walkdir::DirEntry::path$", lambda e, st, c, a, d: Outcome(RefV(Cell(P(deref_ref(e, st, a[0]).attrs["expr"], "Path")))))
 
@@ -254,7 +275,13 @@ def install_walker_env(ctx, eng, nsources=1):
             def eff(eng, s2, a2, k=k, of=of):
                 if of == s2.ghost.get("root_expr") or (of and of[0] == "canon" and of[1] == s2.ghost.get("root_expr")):
                     s2.ghost["root_kind"] = k
-            outs.append(Outcome(AggV("libfs::FileType", eng.variant_index("FileType", k), [], k), events=[Event("kind", [of, k], None)], effect=eff))
+            # the classification agrees with what lstat says about that path (facts shared with every other probe)
+            conds = []
+            if of is not None:
+                tie(st, of)
+                ls, ld, lf = (wfact("lstat_" + q, of) for q in ("is_symlink", "is_dir", "is_file"))
+                conds = [ls == (k == "Symlink"), ld == (k == "Dir"), lf == (k == "File")]
+            outs.append(Outcome(AggV("libfs::FileType", eng.variant_index("FileType", k), [], k), conds, events=[Event("kind", [of, k], None)], effect=eff))
         return outs
     S(r"^<libfs::FileType as From<std::fs::FileType>>::from$", s_ftype)
 
@@ -278,7 +305,18 @@ def install_walker_env(ctx, eng, nsources=1):
         if repr(p) not in tied:
             tied.add(repr(p))
             st.pc += [z3.Implies(wfact("is_dir", p), wfact("exists", p)), z3.Implies(wfact("exists", p), wfact("lexists", p)),
-                      z3.Implies(wfact("lstat_is_file", p), wfact("lexists", p)), z3.Implies(wfact("lstat_is_dir", p), wfact("lexists", p))]
+                      z3.Implies(wfact("lstat_is_file", p), wfact("lexists", p)), z3.Implies(wfact("lstat_is_dir", p), wfact("lexists", p)),
+                      z3.Implies(wfact("lstat_is_symlink", p), wfact("lexists", p)),
+                      # an entry that is itself a directory / regular file is one for stat too; a link is neither itself
+                      z3.Implies(wfact("lstat_is_dir", p), wfact("is_dir", p)), z3.Implies(wfact("lstat_is_file", p), wfact("is_file", p)),
+                      z3.Implies(wfact("lstat_is_symlink", p), z3.Not(z3.Or(wfact("lstat_is_dir", p), wfact("lstat_is_file", p)))),
+                      z3.Implies(z3.And(wfact("is_dir", p), z3.Not(wfact("lstat_is_symlink", p))), wfact("lstat_is_dir", p)),
+                      z3.Implies(z3.And(wfact("is_file", p), z3.Not(wfact("lstat_is_symlink", p))), wfact("lstat_is_file", p)),
+                      z3.Not(z3.And(wfact("is_dir", p), wfact("is_file", p))), z3.Implies(wfact("is_file", p), wfact("exists", p))]
+            if p and p[0] == "canon":
+                q = p[1]
+                # canonicalize(q) names what q resolves to: never a link, and of the kind stat(q) reports
+                st.pc += [z3.Not(wfact("lstat_is_symlink", p)), wfact("lstat_is_dir", p) == wfact("is_dir", q), wfact("lstat_is_file", p) == wfact("is_file", q)]
 
     def s_exists(name):
         def h(eng, st, callee, args, dty):
@@ -450,7 +488,9 @@ def _walker(ctx, src_exprs):
                 if canon[0].args[0] != seg["expr"]:
                     ctx.fail("C13: the walked path itself is resolved", repr(canon[0].args))
             elif kind:
-                ctx.lemma(eng, "C13: with --dereference every walked path is resolved before it is classified", p.pc, z3.Not(deref))
+                # an entry that is not itself a link needs no resolving: the claim is about links
+                ctx.lemma(eng, "C13: with --dereference every walked entry that is a symbolic link is resolved before it is classified", p.pc,
+                          z3.Not(z3.And(deref, fs_fact("lstat_is_symlink", repr(seg["expr"])))))
             rel = ("empty",) if seg["which"] == "root" else ("rel",)
             exp = expected_target(eng, p, seg["src"], rel, cv, fsm)
 
